@@ -40,7 +40,7 @@ namespace c17
     };
   };
 
-  struct SchedOpts { int max_cells = 16; bool threaded_bias = false; int wd_ms = 3000; };
+  struct SchedOpts { int max_cells = 16; bool threaded_bias = false; int wd_ms = 1200; };
 
   struct JobSpec { bool S = true, C = true; Sched sched; };
 
@@ -87,8 +87,8 @@ namespace c17
     for(int k = 0; k < njobs; ++k) { JobSpec js; int f = t.pick({ 5, 2, 2, 1 }); js.S = (f == 0 || f == 1); js.C = (f == 0 || f == 2); js.sched = gen_sched(t, ms.nc()); jobs.push_back(js); }
 
     // strategy the assembler will resolve to (same rule as the documentation of ThreadingStrategy::automatic)
-    ThreadingStrategy eff = cfg.strat;
-    if(eff == ThreadingStrategy::automatic) eff = cfg.maxw <= 1 ? ThreadingStrategy::single : (mesh_perm == 1 ? ThreadingStrategy::colored : ThreadingStrategy::layered);
+    auto resolve = [&]() { ThreadingStrategy e = cfg.strat; if(e == ThreadingStrategy::automatic) e = cfg.maxw <= 1 ? ThreadingStrategy::single : (mesh_perm == 1 ? ThreadingStrategy::colored : ThreadingStrategy::layered); return e; };
+    ThreadingStrategy eff = resolve();
     const bool layered = (eff == ThreadingStrategy::layered || eff == ThreadingStrategy::layered_sorted);
     J steered = J::arr();
     // known finding c17-one-layer: a single selected cell (= one Cuthill-McKee layer) with a layered strategy and
@@ -129,7 +129,7 @@ namespace c17
     }
     Adj adj(ms);
     check_structure(*da, ms, sub, adj, cfg.maxw);
-    VF_CHECK(sub.cells.empty() || da->get_threading_strategy() == eff, "structure: strategy resolved to " << strat_name(da->get_threading_strategy()) << ", documented rule gives " << strat_name(eff));
+    VF_CHECK(sub.cells.empty() || da->get_threading_strategy() == resolve(), "structure: strategy resolved to " << strat_name(da->get_threading_strategy()) << ", documented rule gives " << strat_name(eff));
     c.label(workers_class(nw));
 
     J stats = J::arr(); int jidx = 0;
